@@ -6,6 +6,7 @@ package main
 // answer Kind / Elem / Field / MapKeys ... exactly.
 
 import (
+	"go/token"
 	"fmt"
 	"go/types"
 	"reflect"
@@ -163,6 +164,24 @@ func (in *Interp) reflectIntrinsic(fr *Frame, name string, args []Value) (Value,
 				return true, true
 			}
 			panic(reflectPanic("reflect: call of reflect.Value.IsNil on " + rv.t.String() + " Value"))
+		case "IsZero":
+			// nil-able kinds: nil; everything else: equal to the zero value of
+			// its type (since Go 1.22 a negative floating-point zero is zero)
+			switch x := rv.v.(type) {
+			case Ptr:
+				return x.c == nil, true
+			case *Map:
+				return x == nil, true
+			case Slice:
+				return x.arr == nil, true
+			case Iface:
+				return x.t == nil, true
+			case *Closure:
+				return x == nil, true
+			case nil:
+				return true, true
+			}
+			return in.binop(token.EQL, rv.v, zero(rv.t), rv.t, rv.t), true
 		case "Elem":
 			switch x := rv.v.(type) {
 			case Ptr:
